@@ -226,6 +226,100 @@ def r3(ctx):
                 ctx.check(lvl_ok, "C01.R3", "%s:level@%d" % (fname, tests.index(t) + 1), t.loc(), "level %s tested, level+1 handed down" % vf.show(larg),
                           key="C01.R3:%s:level" % fname)
     ctx.floor("C01.R3", n, 5)
+    # the level stays the depth of the node the walk is at: one step to a child = level + 1, the step back to the parent = level - 1
+    for fname in ("trie_lookup", "trie_lookup_exact"):
+        fn = pdb.fn(fname)
+        bad, npaths = _level_follows_depth(fn)
+        ctx.check(not bad and npaths >= 2, "C01.R3", "%s:level-follows-depth" % fname, bad[0][0] if bad else "%s:%d" % (fn.relfile, fn.line),
+                  bad[0][1] if bad else "%d paths through one loop iteration: *lvl changes by exactly the depth difference between the node at the "
+                  "start of the iteration and the node continued with / returned" % npaths, key="C01.R3:%s:level-depth" % fname)
+
+
+def _level_follows_depth(fn):
+    LV = ("arg", 3)
+    loops = fn.loops()
+    if len(loops) != 1:
+        raise AnalysisBroken("%s: expected one walk loop" % fn.name)
+    h, body = next(iter(loops.items()))
+    latch = {t for (t, hh) in fn.back_edges()}
+    node_phi = None
+    for phi in fn.blocks[h].insts:
+        if phi.op != "phi":
+            break
+        if any(vf.expr(fn, v) == ("arg", 0) for v, b in phi["inc"]):
+            node_phi = phi
+    if node_phi is None:
+        raise AnalysisBroken("%s: the node variable of the walk loop was not found" % fn.name)
+    NODE = vf.expr(fn, node_phi.ref)
+
+    def depth_of(e):
+        if e == NODE:
+            return 0
+        if e[0] == "load" and e[1][0] == "fld" and e[1][1] == NODE:
+            f = vf.last_field(e[1])
+            if f in ("trie_node.lchild", "trie_node.rchild"):
+                return 1
+            if f == "trie_node.parent":
+                return -1
+        if e == ("c", 0) or e == ("null",):
+            return None
+        return "?"
+    at_latch = []
+
+    def classify(inst, E, st):
+        if inst.op == "store" and vf.expr(fn, inst["ptr"]) == LV:
+            v = vf.expr(fn, inst["val"])
+            if v in (("bin", "add", ("load", LV), ("c", 1)),):
+                return ["up"]
+            if v in (("bin", "add", ("load", LV), ("c", -1)), ("bin", "sub", ("load", LV), ("c", 1)), ("bin", "add", ("load", LV), ("c", 4294967295))):
+                return ["down"]
+            return ["other"]
+        if inst.op == "br" and inst.block.id in latch:
+            at_latch.append((inst, dict(st)))
+            return flow.KILL
+        return None
+    outs, fl = es.count_effects(fn, None, classify, None, cap=96)
+    bad = []
+    n = 0
+    # continuing: the node phi's value from the latch is a child, the level went up once
+    def leaves(v, seen=()):
+        e = vf.expr(fn, v)
+        if e[0] == "phi" and e != NODE and e[1] not in seen:
+            return [x for vv, bb in fn.insts[e[1]]["inc"] for x in leaves(vv, seen + (e[1],))]
+        return [e]
+    for v0, b in node_phi["inc"]:
+        for ev in (leaves(v0) if b in body else []):
+            if depth_of(ev) == 1:
+                continue
+            v = v0
+            bad.append(("%s:%d" % (fn.relfile, fn.line), "the walk continues with %s, which is not a child of the current node" % vf.show(ev)))
+    for inst, c in at_latch:
+        n += 1
+        if (c.get("up", 0), c.get("down", 0), c.get("other", 0)) != (1, 0, 0):
+            bad.append((inst.loc(), "an iteration that descends to a child changes *lvl by +%d/-%d (other writes: %d), expected +1" % (c.get("up", 0), c.get("down", 0), c.get("other", 0))))
+    for o in outs:
+        ret = o["inst"]
+        e = vf.expr(fn, ret["val"])
+        if e[0] == "phi":
+            tb = flow.trace_blocks(o["trace"])
+            phi = fn.insts[e[1]]
+            pred = None
+            if phi.block.id in tb:
+                k = len(tb) - 1 - tb[::-1].index(phi.block.id)
+                pred = tb[k - 1] if k > 0 else None
+            inc = [v for v, b in phi["inc"] if b == pred]
+            if len(inc) != 1:
+                raise AnalysisBroken("%s: returned value cannot be attributed to a path" % fn.name)
+            e = vf.expr(fn, inc[0])
+        d = depth_of(e)
+        if d is None:
+            continue
+        n += 1
+        c = o["counts"]
+        delta = c.get("up", 0) - c.get("down", 0)
+        if d == "?" or c.get("other", 0) or delta != d or c.get("up", 0) + c.get("down", 0) != abs(d):
+            bad.append((ret.loc(), "returns %s (depth %s relative to the current node) with *lvl changed by %+d" % (vf.show(e), d, delta)))
+    return bad, n
 
 
 def r4(ctx, retsets):
@@ -377,4 +471,8 @@ WITNESSES = [
      "old": "\t\tif (reason_len && reason) {\n\t\t\tunsigned int r_len_old = *reason_len;", "new": "\t\tif (reason_len && reason && !*reason) {\n\t\t\tunsigned int r_len_old = *reason_len;"},
     {"id": "C01.w12-is_left_child-two-bits", "rule": "C01.R3", "file": TRIE,
      "old": "\treturn lrtr_ip_addr_is_zero(lrtr_ip_addr_get_bits(addr, lvl, 1));", "new": "\treturn lrtr_ip_addr_is_zero(lrtr_ip_addr_get_bits(addr, lvl, 2));"},
+    {"id": "C01.w13-lookup_exact-parent-without-level-decrement", "rule": "C01.R3", "file": TRIE,
+     "old": "\t\t\t(*lvl)--;\n\t\t\treturn root_node->parent;", "new": "\t\t\treturn root_node->parent;"},
+    {"id": "C01.w14-lookup-descends-without-level-increment", "rule": "C01.R3", "file": TRIE,
+     "old": "\t\t\troot = root->rchild;\n\n\t\t(*lvl)++;", "new": "\t\t\troot = root->rchild;\n\t\tif (root && root->len > mask_len)\n\t\t\tcontinue;\n\t\t(*lvl)++;"},
 ]
